@@ -12,8 +12,9 @@ A call-tree language and TWO semantics over it.
     - `ic.DAO` is a stack of private MemCachedStore layers (dao.GetPrivate / Persist / drop),
       modelled as write logs, newest write first;
     - contract/call.go:157-190 `callExFromNative`: a layer is pushed only if
-      `ic.VM.ContractHasTryBlock()` (vm.go:2026-2046: some context of the *currently executing
-      contract instance* has an exception-handling frame in state `eTry`) and the callee's
+      `ic.VM.ContractHasTryBlock()` (vm.go:2026-2050: some context of the *currently executing
+      contract instance* has an exception-handling frame in state `eTry`, or in state `eCatch`
+      with a finally block — the latter since fix db399c7) and the callee's
       effective flags contain WriteStates or AllowNotify; the unload callback persists the
       layer when `commit` and otherwise drops it and truncates `ic.Notifications` to the
       length recorded at call time; `callFromNative && !commit` is an error (FAULT);
@@ -311,7 +312,7 @@ def im : Tree → Ctx → ISt → Res ISt
     | .norm s1 => imEnd x.h hasF (im fin x) s1
     | .thrown s1 =>
       if hasC then
-        match im cat { x with h := x.h || hasF } { s1 with exc := false } with
+        match im cat { x with inTry := x.inTry || hasF, h := x.h || hasF } { s1 with exc := false } with
         | .norm s2 => imEnd x.h hasF (im fin x) s2
         | .thrown s2 => if hasF then imFinExc x.h (im fin x) s2 else .thrown s2
         | .fault s2 => .fault s2
@@ -400,8 +401,7 @@ def callFree : Tree → Bool
   | .native .. => false
   | .try_ b _ c _ f => callFree b && callFree c && callFree f
 
-/-- trees on which the lazy layering is proved sound: a finally block makes no calls, and the
-    catch block of a try that also has a finally block makes no calls. -/
+/-- trees on which the lazy layering is proved sound: no finally block makes a call. -/
 def safe : Tree → Bool
   | .skip | .put .. | .del .. | .notify .. | .throw | .abort => true
   | .seq a b => safe a && safe b
@@ -409,7 +409,7 @@ def safe : Tree → Bool
   | .loc b => safe b
   | .call _ _ b => safe b
   | .native _ _ cb => safe cb
-  | .try_ b hasC c hasF f =>
-    safe b && safe c && safe f && (!hasF || callFree f) && (!(hasC && hasF) || callFree c)
+  | .try_ b _ c hasF f =>
+    safe b && safe c && safe f && (!hasF || callFree f)
 
 end NeoModel.Exec
